@@ -49,6 +49,8 @@ def run(ctx):
     ctx.do(_C15v.rule_value_object, rule_id="C05.instants")
     from .hidden_state import rule_no_hidden_state
     ctx.do(rule_no_hidden_state, "C05.history-independence")
+    from .pitfalls import rule_loops_not_cut_short
+    ctx.do(rule_loops_not_cut_short, "C05.loops-complete")
 
 
 def rule_pipeline(ctx):
